@@ -110,9 +110,20 @@ func genBig(t *rapid.T) qbftsim.Prog {
 	return qbftsim.Gen(t, qbftsim.GenOpts{Ns: []int{7, 10, 13}, MaxOps: 60, ForceByz: true})
 }
 
+// genDirected: the maximum number of Byzantine operators and, in every script slot, one of the Byzantine strategy
+// scripts (equivocation, lock split, lock split + decision, invalid value in a later round, replay from another
+// height, commit broadcast fault, impersonated commit, type confusion in justifications).
+func genDirected(t *rapid.T) qbftsim.Prog {
+	return qbftsim.Gen(t, qbftsim.GenOpts{Ns: []int{4, 4, 4, 7}, MaxOps: 30, MultiHeight: true, NetFaults: true, ForceByz: true, Directed: true})
+}
+
+func TestPropAgreementDirected(t *testing.T) {
+	prog.Check(t, "C01", "TestPropAgreementDirected", genDirected, run)
+}
 func TestPropAgreement(t *testing.T)    { prog.Check(t, "C01", "TestPropAgreement", gen, run) }
 func TestPropAgreementBig(t *testing.T) { prog.Check(t, "C01", "TestPropAgreementBig", genBig, run) }
 func TestReplay(t *testing.T) {
 	prog.Replay(t, "C01", "TestPropAgreement", run)
 	prog.Replay(t, "C01", "TestPropAgreementBig", run)
+	prog.Replay(t, "C01", "TestPropAgreementDirected", run)
 }
